@@ -20,14 +20,21 @@ from . import c08
 
 
 def main(rep: Report, replay: dict | None) -> None:
-    c08.main(rep, replay, which=("B",), pair=True)
-    rep.rule = (
-        "spec->code: all edges of the cached RenderIter model replayed on paired cached/uncached "
-        "real iterators; code->spec: seeded random paired histories; distinct = walks + traces"
-    )
-    try:
-        from .. import imageiter_pairs
-    except ImportError:
-        rep.notes.append("image-iterator cache clause: see C11 (harness/imageiter_pairs.py not present)")
+    # image-iterator half first: its world must set the library's temp dir before
+    # term_image.image is imported
+    from .. import imageiter_pairs
+
+    is_img = bool(replay) and replay["scenario"].get("kind") not in ("replay", "trace", "design", "renderop")
+    if is_img:
+        from . import c11
+
+        c11.main(rep, replay)
         return
     imageiter_pairs.run(rep, replay)
+    c08.main(rep, replay, which=("B",), pair=True)
+    rep.rule = (
+        "render iterator: all edges of the cached RenderIter model replayed on paired cached/uncached "
+        "real iterators + seeded random paired histories validated by TLC; image iterator: seeded "
+        "random histories of paired cached/uncached ImageIterators (size changes, dynamic sizes + "
+        "terminal resizes, seeks) validated by TLC against ImageIter.tla; distinct = walks + traces"
+    )
